@@ -288,4 +288,16 @@ def contentP (w : Writer) : List PartEvent → Bytes
 def expectedDump (ds : List Opts) (es : List Exchange) (w : Writer) : Bytes :=
   contentP w (expectedEvents ds es)
 
+/-- A sequence of requests on one client / connection, each with the dumpers in force for THAT
+request (`GetDumpers` is evaluated per request: the request-level dumper comes from the
+request's own context, the client-level one is whatever `Transport.Dump` is at that moment). -/
+abbrev ReqStep := List Opts × Exchange
+
+def expectedDumpSeq (steps : List ReqStep) (w : Writer) : Bytes :=
+  steps.flatMap fun s => expectedDump s.1 [s.2] w
+
+/-- Writers a dumper list can ever write a part to. -/
+def writersOf (ds : List Opts) : List Writer :=
+  ds.flatMap fun o => Part.all.map o.resolve
+
 end Req.Client.Dump
